@@ -124,7 +124,7 @@ def subchecks(tier):
             prop,
             quick=500,
             thorough=40000,
-            floors={"back_to_back": 0.2, "simultaneous_different_types": 0.3, "exact_family": 0.05, "recompute_after_last_departure": 0.05, "mr_None": 0.1},
+            floors={"back_to_back": 0.2, "simultaneous_different_types": 0.3, "exact_family": 0.04, "recompute_after_last_departure": 0.05, "mr_None": 0.1},
         )
     ]
 
